@@ -245,6 +245,30 @@ pub fn run(ctx: &mut Ctx) {
             }
         }
     }
+    // --- long runs of one byte between tokens (no nesting at all): a per-character recursion shows up here -----
+    if ctx.shard == 0 {
+        let bytes: Vec<u8> = vec![b' ', b'\t', b'\n', b'\r', b',', b'1', b'_', b'a', b'Z', b'-', b'.', b':', b'"', b'`', b'@', b'^', b'\\', b'/', 0x0c, 0x00, 0xc3];
+        let lens: Vec<usize> = if ctx.quick() { vec![300, 5_000, 100_000] } else { vec![100, 450, 1_000, 5_000, 20_000, 100_000, 1_000_000] };
+        let mut idx = 0u64;
+        for b in &bytes {
+            for len in &lens {
+                let i = idx;
+                idx += 1;
+                if !ctx.begin("ladder-runs", i) {
+                    continue;
+                }
+                let run: String = String::from_utf8_lossy(&vec![*b; *len]).to_string();
+                let mut rng = ctx.case_rng("ladder-runs", i);
+                ctx.eval(&format!("ladder-runs:len{len}"), crate::prng::mix(&[*b as u64, *len as u64]), true);
+                for doc in [format!("{run}1"), format!("[1,{run}2]"), format!("{{a:{run}1 b}}"), format!("ver:\"3.0\"\na,b\n1,{run}2\n"), format!("ver:\"3.0\"{run}m\na\n1\n"), format!("\"{run}\"")] {
+                    monitor(ctx, Entry::FromStr, doc.as_bytes(), "ladder-runs", &mut rng);
+                    if doc.starts_with("ver:") {
+                        monitor(ctx, Entry::LazyRows, doc.as_bytes(), "ladder-runs", &mut rng);
+                    }
+                }
+            }
+        }
+    }
     let json_ladders: [(&str, &str, &str, &str); 3] = [
         ("ladder-json-list", "[", "1", "]"),
         ("ladder-json-dict", "{\"a\":", "1", "}"),
